@@ -695,6 +695,7 @@ fn is_negative(v: &SqlValue) -> bool {
         _ => false,
     }
 }
+#[allow(dead_code)]
 fn is_special_float(v: &SqlValue) -> bool {
     match v {
         SqlValue::Double(f) | SqlValue::Numeric(f) => !f.is_finite(),
@@ -704,6 +705,7 @@ fn is_special_float(v: &SqlValue) -> bool {
 }
 /// a CHAR(n) value with a non-blank character beyond its first n bytes: coerce_value measures the
 /// literal in bytes and cuts it (on a character boundary), the storage layer pads the rest back
+#[allow(dead_code)]
 fn char_cut_loses(v: &SqlValue, t: &DataType) -> bool {
     match (v, t) {
         (SqlValue::Character(s), DataType::Character { length }) if s.len() > *length => {
@@ -726,16 +728,8 @@ fn classify(tabs: &[TableObs]) -> &'static str {
         "string-with-newline"
     } else if strs.iter().any(|s| !esc_safe(s)) {
         "string-with-backslash"
-    } else if vals.iter().any(|v| is_special_float(v)) {
-        "special-float"
     } else if vals.iter().any(|v| is_negative(v)) {
         "negative-number-literal"
-    } else if vals.iter().any(|v| matches!(v, SqlValue::Smallint(_))) {
-        "smallint-value"
-    } else if vals.iter().any(|v| matches!(v, SqlValue::Numeric(f) if f.to_string().parse::<i64>().is_ok())) {
-        "numeric-whole-number"
-    } else if tabs.iter().any(|t| t.rows.iter().any(|r| r.iter().zip(t.cols.iter()).any(|(v, c)| char_cut_loses(v, &c.1)))) {
-        "char-non-ascii"
     } else {
         "roundtrip-mismatch"
     }
